@@ -5,8 +5,8 @@
    execution after every action; `no_err err_Cxx m` = the monitor reported no error of this property's class;
    `no_raise ls` = no request ended in an exception. *)
 From Coq Require Import ZArith List Bool.
-From CS Require MixInv RevGen.
-From CS Require Import Actions NAdvance Multistage Exec Sched RunFacts Projections BasicInv MultistageRun TLBridge.
+From CS Require RevGen.
+From CS Require Import Actions NAdvance Multistage Exec Sched RunFacts Projections BasicInv MultistageRun TLBridge MixBridge.
 Import ListNotations.
 Open Scope Z_scope.
 
@@ -51,31 +51,15 @@ Proof.
 Qed.
 Print Assumptions C08_twolevel.
 
-(* PARTIAL (Mixed): the invariant theorem for the Mixed generator over an abstract planner satisfying the five facts proved in MixDP.v, against a single-storage executor; the bridge to the extracted Mixed model / Exec.v is not proved yet (DESIGN.md 6) *)
-Module M_C08_mixed_machine_partial.
-Import MixInv.
-Theorem C08_mixed_machine_partial :
-  forall (plan : Z -> Z -> kind * Z) (C : Z -> Z -> Z),
-         (forall k : Z, plan 1 k = (KFR, 1)) ->
-         (forall m k : Z,
-          2 <= m ->
-          1 <= k ->
-          fst (plan m k) = KIcs /\ 2 <= snd (plan m k) <= m - 1 /\ (2 <= k \/ snd (plan m k) = m - 1) \/
-          fst (plan m k) = KAdj /\ snd (plan m k) = 1 /\ (2 <= k \/ m = 2)) ->
-         (forall k : Z, C 1 k = 1) ->
-         (forall m k : Z,
-          2 <= m ->
-          1 <= k ->
-          fst (plan m k) = KIcs ->
-          C m k = snd (plan m k) + C (m - snd (plan m k)) (k - 1) + C (snd (plan m k)) k) ->
-         (forall m k : Z, 2 <= m -> 1 <= k -> fst (plan m k) = KAdj -> C m k = 1 + C (m - 1) (k - 1)) ->
-         forall (N S_ : Z) (stg : Actions.storage),
-         stg = Actions.RAM \/ stg = Actions.DISK ->
-         forall (s : st) (x : xst) (f : nat),
-         Inv plan C N S_ s x -> Good plan C N S_ stg x (resume plan N S_ stg (S (S (S f))) s) (pcv s = PDone).
-Proof. exact (@MixInv.step_ok). Qed.
-Print Assumptions C08_mixed_machine_partial.
-End M_C08_mixed_machine_partial.
+(* MixedCheckpointSchedule: every N, every unit count, both storages, both planner paths (memoised / tabulated) *)
+Theorem C08_mixed : forall (N s : Z) (sg : storage) (tab : bool) (k : nat),
+  1 <= N -> 0 <= s -> (2 <= N -> 1 <= s) -> sg = RAM \/ sg = DISK ->
+  exists o0 m ls, run_case (PMixed N s sg tab) (pmx N (Z.min s (N - 1)) sg) (repeat Next k) = Ok (o0, m, ls) /\ no_err err_C08 m /\ no_raise ls.
+Proof.
+  intros N s sg tab k H1 H2 H3 H4. destruct (mixed_run N s sg tab k H1 H2 H3 H4) as (o0 & m & ls & E & Hm & Hl).
+  exists o0, m, ls. auto using mon_ok_no_err.
+Qed.
+Print Assumptions C08_mixed.
 
 (* PARTIAL (Revolve): the whole converted stream of the structural converter is accepted by an executor with RAM budget cm; the bridge from the index-based converter of Model/RevConv.v is not proved yet; DiskRevolve, PeriodicDiskRevolve and HRevolve: validated model + oracle only (DESIGN.md 6) *)
 Module M_C08_revolve_structural_partial.
